@@ -3,6 +3,9 @@
 package main
 
 import (
+	"fmt"
+	"io"
+	"crypto"
 	"bytes"
 	"math/big"
 	"strconv"
@@ -18,6 +21,11 @@ func sigRSV(sig *secp.Signature, withV bool) string {
 	}
 	return out
 }
+
+// badReader fails every read: the deterministic signer must never touch its entropy argument
+type badReader struct{}
+
+func (badReader) Read(p []byte) (int, error) { return 0, fmt.Errorf("entropy source must not be read") }
 
 func pubFromXY(xs, ys string) *secp.PublicKey {
 	return secp.NewPublicKey(fvFromHex(xs), fvFromHex(ys))
@@ -47,6 +55,18 @@ func init() {
 			}
 			if !sig.Verify(hash, key.PubKey()) {
 				return "SELF-VERIFY-FAILED " + sigRSV(sig, true)
+			}
+			// the crypto.Signer front end: the digest is signed as given, whatever hash the options name and
+			// whatever the (unused) entropy source does; only Format selects the encoding
+			for hf := crypto.Hash(0); hf < 20; hf++ {
+				for _, rd := range []io.Reader{nil, badReader{}} {
+					o1, e1 := key.Sign(rd, hash, hf)
+					o2, e2 := key.Sign(rd, hash, &secp.SignOptions{Hash: hf})
+					o3, e3 := key.Sign(rd, hash, &secp.SignOptions{Format: secp.SignFormatCompact, Hash: hf})
+					if e1 != nil || e2 != nil || e3 != nil || !bytes.Equal(o1, sd) || !bytes.Equal(o2, sd) || !bytes.Equal(o3, sc) {
+						return fmt.Sprintf("SIGNER-DEPENDS-ON-OPTIONS hash=%d reader=%v", hf, rd != nil)
+					}
+				}
 			}
 			return sigRSV(sig, true) + " " + hx(der) + " " + hx(c1) + " " + hx(c0) + " " + hx(sd) + " " + hx(sc)
 		})
